@@ -92,6 +92,8 @@ class Run:
         os.makedirs(os.path.join(VERIF, 'replays'), exist_ok=True)
         h = hashlib.sha1(json.dumps(_jsonable(key), sort_keys=True).encode()).hexdigest()[:10]
         path = os.path.join(VERIF, 'replays', '%s_%s.json' % (self.prop, h))
+        if any(v['replay'] == path for v in self.violations):
+            return
         doc = dict(property=self.prop, obligation=key, what=what, witness=_jsonable(witness), solver=_jsonable(solver),
                    no_failing_input_found=bool(noinput), tier=self.tier, seed=self.seed,
                    replay_cmd='cd /verif && ./vcheck --replay %s' % path)
